@@ -39,7 +39,13 @@ def gen_cases(ctx, n):
     cases = [(l1, l2) for (_, l1, l2) in tlegen.REAL_TLES]
     regimes = ["near"] * 5 + ["leo"] * 3 + ["any"] * 2
     while len(cases) < n:
-        _, l1, l2 = tlegen.random_tle(ctx.rng, ctx.rng.choice(regimes))
+        if ctx.rng.random() < 0.12:
+            # element sets hugging the 220 km / 225 min (and 156 / 98 km) thresholds: which branch answers, if any
+            ov, kind = tlegen.threshold_fields(ctx.rng)
+            _, l1, l2 = tlegen.random_tle(ctx.rng, "near", overrides=ov)
+            ctx.bump("threshold_family", kind)
+        else:
+            _, l1, l2 = tlegen.random_tle(ctx.rng, ctx.rng.choice(regimes))
         cases.append((l1, l2))
     return cases[:max(n, len(tlegen.REAL_TLES))]
 
@@ -233,6 +239,9 @@ def oracle(ctx):
             else:
                 ctx.count("oracle_outside_a_ratio")
     ctx.note("worst |dr| vs Spec.Str3 = %.3g km, worst |dv| = %.3g km/s" % (worst_p, worst_v))
+    # the answer is a function of (elements, instant): array-valued times, re-used and updated in place between queries
+    for (l1, l2, o, ts) in recs[:ctx.size(25, 400)]:
+        ctx.bump("sequence_probe", seq_probe(ctx, l1, l2, [ts[1], ts[1] + 1.5, ts[1] + 7.0], ctx.rng.choice([90.0, 600.0, 5.0]), o))
     # AIAA vectors
     worst = 0.0
     for sat, l1, l2, vecs in aiaa_vectors():
@@ -255,6 +264,38 @@ def oracle(ctx):
     ctx.note("worst |dr| vs AIAA vectors = %.3g km" % worst)
 
 
+def seq_probe(ctx, l1, l2, mins, step_s, o=None):
+    """One Orbital object queried with a time ARRAY, the array advanced in place, queried again (three times): each answer
+    must be the state at the array's current instants, i.e. equal what a fresh object returns for fresh scalar times."""
+    from pyorbital import orbital
+    o = o or orbital.Orbital("x", line1=l1, line2=l2)
+    arr = np.array([o.tle.epoch + np.timedelta64(int(round(m * 60e6)), "us") for m in mins], dtype="datetime64[us]")
+    step = np.timedelta64(int(round(step_s * 1e6)), "us")
+    for rnd in range(3):
+        try:
+            pos, vel = o.get_position(arr, normalize=False)
+        except Exception:  # noqa  refusals are C13's subject
+            return "refused"
+        fresh = orbital.Orbital("x", line1=l1, line2=l2)
+        for i in range(len(arr)):
+            ctx.count("eval_oracle_sequence")
+            try:
+                p1, v1 = fresh.get_position(arr[i].astype("datetime64[us]").astype(object), normalize=False)
+            except Exception:  # noqa
+                continue
+            dp = float(np.linalg.norm(np.asarray(pos)[:, i] - p1))
+            dv = float(np.linalg.norm(np.asarray(vel)[:, i] - v1))
+            if not (dp <= 1e-6 and dv <= 1e-9):
+                ctx.violation("stale_or_history_dependent", {"line1": l1, "line2": l2, "minutes_list": list(mins), "step_s": step_s,
+                                                            "round": rnd, "index": i},
+                              {"array_query": [list(np.asarray(pos)[:, i]), list(np.asarray(vel)[:, i])], "diff_km": dp, "diff_kms": dv},
+                              "state at the instant now held by the array (fresh object, scalar time): %r" % [list(p1), list(v1)],
+                              site="Orbital.get_position")
+                return "violated"
+        arr += step
+    return "ok"
+
+
 def match_known(entry, v):
     m = entry.get("match", {})
     if m.get("kind") != v["kind"]:
@@ -267,6 +308,10 @@ def match_known(entry, v):
 def replay(ctx, case):
     from pyorbital import orbital
     inp = case.get("input", case)
+    if "minutes_list" in inp:
+        r = seq_probe(ctx, inp["line1"], inp["line2"], inp["minutes_list"], inp["step_s"])
+        print("sequence probe:", r)
+        return 1 if r == "violated" else 0
     o = orbital.Orbital("x", line1=inp["line1"], line2=inp["line2"])
     tt = o.tle.epoch + np.timedelta64(int(round(inp["minutes"] * 60e6)), "us")
     pos, vel = o.get_position(tt, normalize=False)
